@@ -34,10 +34,14 @@ type Faults struct {
 	NextAt     int  // Rows.Next returns an error instead of row NextAt (NextAt == number of rows: instead of io.EOF)
 	BadValueAt int  // row BadValueAt carries a value of an unsupported type in its first column
 	ExecAt     int  // the ExecAt-th Exec (0 based) fails
+	// ExtraSets > 0 makes every query answer with 1+ExtraSets result sets (the table again); NextSetAt is the number of
+	// the first advance to another result set that fails (driver.RowsNextResultSet).
+	ExtraSets int
+	NextSetAt int
 }
 
 // NoFaults is the fault-free setting.
-func NoFaults() Faults { return Faults{NextAt: -1, BadValueAt: -1, ExecAt: -1} }
+func NoFaults() Faults { return Faults{NextAt: -1, BadValueAt: -1, ExecAt: -1, NextSetAt: -1} }
 
 // ErrInjected is the error returned at fault points.
 var ErrInjected = errors.New("memsql: injected fault")
@@ -168,7 +172,25 @@ type rows struct {
 	db  *DB
 	t   *Table
 	pos int
+	set int
 	buf []byte
+}
+
+// HasNextResultSet and NextResultSet implement driver.RowsNextResultSet.
+func (r *rows) HasNextResultSet() bool { return r.set < r.db.Faults.ExtraSets }
+
+func (r *rows) NextResultSet() error {
+	f := r.db.Faults
+	if f.NextSetAt >= 0 && r.set >= f.NextSetAt {
+		r.db.Fired++
+		return ErrInjected
+	}
+	if r.set >= f.ExtraSets {
+		return io.EOF
+	}
+	r.set++
+	r.pos = 0
+	return nil
 }
 
 func (r *rows) Columns() []string { return append([]string(nil), r.t.Cols...) }
